@@ -240,6 +240,19 @@ def exec (s : Store) : Req → Store × Resp
   | .env .finalize => ({ s with revs := s.revs.filter (fun r => !r.deleting) }, .ok)
   | .env (.addFin n) => ({ s with revs := s.revs.map (fun r => if r.name = n then { r with fin := true } else r) }, .ok)
 
+/-- printable tag of a request, in the form the harness prints the calls of the real reconciler -/
+def Req.tag : Req → String
+  | .getPkg _ => "get pkg"
+  | .statusPkg _ _ => "status pkg"
+  | .listRevs _ => "list rev"
+  | .listImageConfigs => "list imageconfigs"
+  | .getRev n => "get rev " ++ n
+  | .createRev r _ => "create rev " ++ r.name
+  | .patchRev r => "patch rev " ++ r.name
+  | .updateRev r => "update rev " ++ r.name
+  | .deleteRev n => "delete rev " ++ n
+  | .env _ => "env"
+
 def errResp : Outcome → Req → Resp
   | .conflict, r => if isWrite r then .err .conflict else .err .other
   | _, _ => .err .other
